@@ -103,6 +103,10 @@ MUTANTS = [
          "        with self._cv:\n            while index in self._filling:\n                self._cv.wait()\n            if self.spherical_triangles[index] is not None:\n                return self.spherical_triangles[index]\n            self._filling.add(index)\n"
          "        val = None\n        try:\n            with self._sem:\n                val = self._get_spherical_triangle(face_triangle_index, origin_id, reflected)\n        finally:\n            with self._cv:\n                if val is not None:\n                    self.spherical_triangles[index] = val\n                self._filling.discard(index)\n                self._cv.notify_all()\n            self._ready.set()\n        self._ready.wait()\n        return val\n"),
     ], 600),
+    ('c17_result_depends_on_str_hash_order', 'C17', 'violation', [
+        ('a5/core/cell.py', "    point = _dodecahedron.inverse(pentagon.get_center(), cell[\"origin\"].id)\n    return to_lonlat(point)\n",
+         "    point = _dodecahedron.inverse(pentagon.get_center(), cell[\"origin\"].id)\n    lon, lat = to_lonlat(point)\n    first = next(iter({'uv', 'vu', 'uw', 'wu', 'vw', 'wv'}))\n    return (lon + (0.0 if first < 'v' else 1e-13), lat)\n"),
+    ], 600),
 ]
 
 
